@@ -83,10 +83,11 @@ func refRender(chain []*btpl, items []*bitem, supers [][]*bitem, out *strings.Bu
 }
 
 type c10Gen struct {
-	rg    *rng
-	names []string // block names known so far in the chain
-	used  map[string]bool
-	n     int
+	rg     *rng
+	names  []string // block names known so far in the chain
+	used   map[string]bool
+	n      int
+	nested map[string][]string // block name -> names of the blocks first declared inside it
 }
 
 func (g *c10Gen) blockBody(level int, name string, d int, allowSuper bool) []*bitem {
@@ -99,9 +100,20 @@ func (g *c10Gen) blockBody(level int, name string, d int, allowSuper bool) []*bi
 		// a nested block, always under a fresh name (re-declaring, inside a definition of
 		// block X, a block that some template nests X in makes the blocks contain each
 		// other: unbounded recursion, recorded under C01-cyclic-template-reference)
-		g.n++
-		nn := fmt.Sprintf("b%d", g.n)
-		g.names = append(g.names, nn)
+		// ... or re-declaring a block that an ancestor already nests in this very block (the
+		// same nesting order, so nothing contains itself)
+		nn := ""
+		if inner := g.nested[name]; len(inner) > 0 && g.rg.chance(1, 2) {
+			nn = inner[g.rg.intn(len(inner))]
+		} else {
+			g.n++
+			nn = fmt.Sprintf("b%d", g.n)
+			g.names = append(g.names, nn)
+			if g.nested == nil {
+				g.nested = map[string][]string{}
+			}
+			g.nested[name] = append(g.nested[name], nn)
+		}
 		if !g.used[nn] {
 			g.used[nn] = true
 			items = append(items, &bitem{kind: "block", name: nn, items: g.blockBody(level, nn, d-1, true)})
